@@ -56,6 +56,9 @@ func canon(v interface{}) interface{} {
 	case primitive.A:
 		return canon([]interface{}(x))
 	case []interface{}:
+		if x == nil {
+			return nil // a nil slice marshals as null, not as the empty array
+		}
 		s := make([]interface{}, len(x))
 		for i, e := range x {
 			s[i] = canon(e)
